@@ -591,9 +591,11 @@ func componentOf(name string) string {
 
 // normalizeStorage abstracts the storage class of a slot in a canonical term so that a
 // kind that is never unboxed (string) can be compared with the unboxed kinds:
-//   INTS[T](E, i)                                  -> SLOT(E, i)
-//   E.Vals[i].⟪Acc⟫()                               -> SLOT(E, i)
-//   { $n := NewR(TypeOfX).Elem(); $n.Set⟪Acc⟫(v); E.Vals[i] = $n }  -> SLOT(E, i) = v
+//
+//	INTS[T](E, i)                                  -> SLOT(E, i)
+//	E.Vals[i].⟪Acc⟫()                               -> SLOT(E, i)
+//	{ $n := NewR(TypeOfX).Elem(); $n.Set⟪Acc⟫(v); E.Vals[i] = $n }  -> SLOT(E, i) = v
+//
 // and renumbers the α-names afterwards. Used only for the lone-member comparison.
 func normalizeStorage(s string) string {
 	// boxed store
